@@ -29,7 +29,8 @@ RULE = (
     "documents - load() must raise or return a tree that satisfies the C01-C03 predicates. reader part: an "
     "independent encoder renders tree specs to the documented layout with free "
     "formatting choices (indent, key order, maps on/off, clone references on/off, older generator strings) and "
-    "load() must return the described tree (a third of the cases pass a file_meta dict that already received the "
+    "load() must return the described tree - from a stream, from a plain file and from a zip archive whose single "
+    "member has any name, under any file name, as str or Path - (a third of the cases pass a file_meta dict that already received the "
     "header of another, compact document); plus the four literal documents of the user guide and generated JSON "
     "without a valid nutree header, which must be rejected. Non-trivial: document with a clone reference and a dict "
     "entry; distinct = distinct case."
@@ -322,10 +323,34 @@ def run_reader(case, rec):
         # the caller's file_meta dict already received the header of another (compact) document
         Tree.load(io.StringIO(serial.PRELOAD_DOC), file_meta=meta)
         rec.cls("file_meta-dict-used-before")
+    container = opt.get("container", "stream")
+    if container != "stream":
+        try:
+            text.encode("utf8")
+        except UnicodeEncodeError:
+            container = "stream"  # a raw lone surrogate (non-ASCII rendering): not storable as UTF-8 by anyone
+    rec.cls(f"container={container.split(':')[0]}")
     try:
-        loaded = cls.load(io.StringIO(text), file_meta=meta, **kw)
+        if container == "stream":
+            loaded = cls.load(io.StringIO(text), file_meta=meta, **kw)
+        else:
+            # the document as a file of the caller's naming: plain, or the single member (of any name) of a zip archive
+            import os
+            import tempfile
+            import zipfile
+            from pathlib import Path
+
+            with tempfile.TemporaryDirectory(prefix="verif_c12_") as tmp:
+                fn = os.path.join(tmp, opt.get("file_name", "tree.nutree"))
+                if container == "file":
+                    with open(fn, "w", encoding="utf8") as fp:
+                        fp.write(text)
+                else:
+                    with zipfile.ZipFile(fn, "w", compression=zipfile.ZIP_DEFLATED) as zf:
+                        zf.writestr(container.split(":", 1)[1], text)
+                loaded = cls.load(Path(fn) if opt.get("as_path") else fn, file_meta=meta, **kw)
     except Exception as e:  # noqa: BLE001
-        rec.fail(f"reader:load-raises:{type(e).__name__}", {"exc": repr(e)[:300], "text": text[:600]})
+        rec.fail(f"reader:load-raises:{type(e).__name__}", {"exc": repr(e)[:300], "text": text[:600], "container": container})
         return
     if type(loaded) is not cls:
         rec.fail("reader:class", type(loaded).__name__)
@@ -591,6 +616,10 @@ def reader_cases(draw, tier):
         opt["meta"] = draw(st.sampled_from([{"foo": "bar"}, {"ünï": "cödé", "n": 1}]))
     if draw(st.sampled_from([0, 0, 1])):
         opt["preload"] = True
+    if draw(st.sampled_from([0, 1])):
+        opt["container"] = draw(st.sampled_from(["file", "zip:tree.nutree.json", "zip:data.json", "zip:export", "zip:a/b.json"]))
+        opt["file_name"] = draw(st.sampled_from(["tree.nutree", "renamed.bin", "x.json", "noext"]))
+        opt["as_path"] = draw(st.booleans())
     return {"profile": profile, "spec": spec, "opt": opt}
 
 
